@@ -496,6 +496,7 @@ def _queue_shapes(fb, R, rec, fns, F, cons, prod, all_raw=()):
                 has_empty = any(sense and (fn.sn(cn) or {}).get('q') == 'std::queue::empty' and _recv_field(fn, fn.sn(cn)) == F['queue']
                                 for (cn, sense, _b) in gs)
                 ok = bool(inloop) and has_flag and has_empty
+                R.ok('Q4-consumer-wait-not-timed-out', '%s#wait' % fn.q, fn.loc(c['id']))   # an untimed wait cannot time out
             R.check(ok, 'Q4-consumer-predicate', '%s#wait' % fn.q, fn.loc(c['id']),
                     'consumer wait in %s: must be a predicate wait whose predicate is a disjunction containing !%s and !%s.empty() '
                     '(a bare wait() is not re-checked after a wake-up: another consumer can take the element first)' % (fn.q, F['flag'], F['queue']))
